@@ -13,11 +13,11 @@ TECHNIQUE = 'abstract interpretation of calculate_terms / collapse_modes over th
 LEVEL_TEXT = ('The mode summation is interpreted symbolically for whole (truncation, l_max, obliquity on/off) configurations, every (l,m,p,q) term is captured, and the '
               'heating/torque relations, the frequency-signature grouping, the synchronous-circular zero and the classical 21/2 limit are decided as exact identities in '
               'n, spin, e, I, a, R and per-frequency complex compliances.')
-LEVEL_NOTE = ('Trusted: front-end, interpreter, algebra without rounding; |w| and sign(w) are modelled with sign(w)*w = |w|. Non-negativity of heating inside a truncation '
-              'validity range is not decided (needs numeric ranges of truncated polynomials). Quick tier covers 4 configurations, thorough 20+.')
+LEVEL_NOTE = ('Trusted: front-end, interpreter, algebra without rounding; |w| and sign(w) are modelled with sign(w)*w = |w|. Non-negativity: heating is a sum of non-negative factors wherever every tabulated G^2 is non-negative; decided is that each table has such a range (R10.8) and, '
+              'in the thorough tier, the range itself by exact root isolation (recorded in the evidence); the total can stay positive beyond it. Quick tier covers 4 configurations, thorough 20+.')
 EXPLANATION = ('R10.1 per-term formulas and heating == n dUdM - spin dUdO per term; R10.2 stored sums == sum of captured terms, collapse applies the same -Im k and susceptibility to all '
                'channels so heating == host_mass (n dUdM - spin dUdO) overall; R10.3 every term grouped under a frequency signature has exactly that frequency, skipped terms have zero '
-               'frequency; R10.4 synchronous circular zero-obliquity gives zero for all four outputs; R10.5 classical limit 7 e^2 n * susceptibility * (-Im k2); R10.6 registry wiring.')
+               'frequency; R10.4 synchronous circular zero-obliquity gives zero for all four outputs; R10.5 classical limit 7 e^2 n * susceptibility * (-Im k2); R10.6 registry wiring; R10.7 no in-place update of arguments; R10.8 every truncation has a range where all G^2 >= 0 (hence heating >= 0 for passive rheologies).')
 
 
 def run(chk):
@@ -264,6 +264,79 @@ def run(chk):
     from .common import inplace_lint
     inplace_lint(chk, repo, 'R10.7', ['TidalPy/tides/modes/mode_manipulation.py', 'TidalPy/tides/dissipation.py', 'TidalPy/tides/love1d.py', 'TidalPy/toolbox/quick_tides.py'])
     chk.floor('R10.7', 4)
+    nonnegativity(chk, repo, it)
     chk.floor('R10.1', len(configs) * 2); chk.floor('R10.2', len(configs) * 2 * 2); chk.floor('R10.3', len(configs) * 2)
     chk.floor('R10.4', len(configs)); chk.floor('R10.5', 1); chk.floor('R10.6', 100)
     chk.assume('n, a, R, e > 0; sign(w) w = |w|; compliances arbitrary complex per unique frequency')
+
+
+# ------------------------------------------------------------------------------------------------ R10.8 non-negativity inside the validity range
+def nonnegativity(chk, repo, it):
+    """heating = susceptibility * sum_modes [coef * F^2_lmp(I) * G^2_lpq(e) * |w|] * (-Im k_l(|w|))   (R10.1, R10.2).  coef > 0, |w| >= 0, F^2 is a square (C09 R09.1), so
+    for a passive rheology (-Im k >= 0) heating >= 0 wherever every tabulated G^2_lpq(e) >= 0.  Decided: each tabulated G^2 is non-negative on a right-neighbourhood of
+    e = 0 (its lowest-order non-zero Taylor coefficient is positive), i.e. every truncation HAS a validity range; thorough tier: the range itself,
+    e*(N, l) = the smallest e in (0, 1) at which some entry of the table changes sign (exact real-root isolation on the extracted polynomials), recorded in the evidence."""
+    import re
+    from ..core.series import to_series
+    e = X.atom('e', 'pos')
+    n_tab = 0
+    estar = {}
+    for l in range(2, 8):
+        m = repo.by_path(f'TidalPy/tides/eccentricity_funcs/orderl{l}.py')
+        funcs = sorted(((int(n_[len('eccentricity_funcs_trunc'):]), f_) for n_, f_ in m.defs.items() if isinstance(f_, ast.FunctionDef) and re.fullmatch(r'eccentricity_funcs_trunc\d+', n_)))
+        for N, f_ in funcs:
+            table = it.call(m, f_, [e])
+            bad = []
+            worst = None
+            for p, row in table.items():
+                for q, node in row.items():
+                    ser = to_series(node, 'e', N + 2)
+                    lead = next((c for c in ser if c != 0), None)
+                    if lead is not None and lead < 0:
+                        bad.append(f'(p={p}, q={q}): leading coefficient {float(lead):.4g}')
+                    if chk.tier == 'thorough' and l <= 3:
+                        r0 = first_sign_change(node, ser)
+                        if r0 is not None and (worst is None or r0 < worst[0]):
+                            worst = (r0, p, q)
+            n_tab += 1
+            chk.ob('R10.8', f'orderl{l}.eccentricity_funcs_trunc{N}: every G^2_lpq(e) is non-negative on a neighbourhood of e = 0 (lowest-order coefficient positive), so the truncation has a validity range', not bad,
+                   '; '.join(bad[:4]), m.where(f_), key=f'R10.8|l={l}|N={N}', method='exact Taylor coefficients of the extracted table')
+            if worst is not None:
+                estar[(l, N)] = worst
+    for (l, N), (r0, p, q) in sorted(estar.items()):
+        chk.note_analysed('validity range (all G^2 >= 0 for e below)', f'l={l}, N={N}: e* = {r0:.4f} (first sign change: p={p}, q={q})')
+    chk.floor('R10.8', 60)
+
+
+def first_sign_change(node, ser):
+    """smallest e in (0, 1) where the (polynomial or rational, denominators powers of 1 - e^2) entry changes sign; None if it does not"""
+    from sympy import Poly, Symbol, Rational, sqf_list, real_roots
+    from ..core import ratfunc as R
+    es = Symbol('e')
+    num, den = R.to_frac(node)
+
+    def to_sym(poly):
+        expr = 0
+        for mono, c in poly.items():
+            if c[1] != 0: return None
+            t = Rational(c[0].numerator, c[0].denominator)
+            for k, ex in mono:
+                if k[0] != 'a': return None
+                t = t * es ** ex
+            expr += t
+        return expr
+    ns = to_sym(num)
+    if ns is None or ns == 0:
+        return None
+    P_ = Poly(ns, es)
+    _c, facs = sqf_list(P_)
+    odd = Poly(1, es)
+    for fpoly, mult in facs:
+        if mult % 2 == 1: odd = odd * fpoly
+    if odd.degree() <= 0:
+        return None
+    best = None
+    for rt in real_roots(odd):
+        v = float(rt)
+        if 1e-12 < v < 1 and (best is None or v < best): best = v
+    return best
